@@ -154,6 +154,13 @@ def run_histories(ctx, rng, N, maxlen):
                     m.inverse_transform(*m.scores()) if kind == "cross" else m.inverse_transform(m.scores())
                 elif op == "components":
                     m.components()
+                    # the non-default variants of the accessors are queries as well
+                    for kwv in (dict(normalized=False), dict(normalized=True)):
+                        try:
+                            m.components(**kwv)
+                            m.scores(**kwv)
+                        except TypeError:
+                            pass
                 elif op == "scores":
                     m.scores()
                 elif op == "metric":
@@ -328,12 +335,58 @@ def run_rotator_leaves_model(ctx, rng, N):
                           dict(kind="rotleave", cls=name))
 
 
+def run_rotator_histories(ctx, rng, N):
+    """one rotator / bootstrapper OBJECT fitted several times (on the same and on other base models): its answers equal those
+    of a fresh object fitted on the last base model"""
+    import xarray as xr
+    import xeofs as xe
+    specs = Z.specs()
+    for i in range(N):
+        name = ["EOF", "ComplexEOF", "MCA"][i % 3]
+        sp = specs[name]
+        cross = sp.kind == "cross"
+        pool = []
+        for j in range(3):
+            n, p = int(rng.integers(12, 18)), int(rng.integers(5, 8))
+            X = rng.standard_normal((n, p)) @ np.diag(np.linspace(2.0, 0.5, p)) @ rng.standard_normal((p, p))
+            if sp.cplx:
+                X = X + 1j * rng.standard_normal((n, p))
+            d = xr.DataArray(X, dims=("time", "x"), coords={"time": np.arange(n), "x": np.arange(p)})
+            m = sp.make(4, use_pca=False, solver="full") if cross else sp.make(4, solver="full")
+            m.fit(d, d * 0.5 + 1.0, "time") if cross else m.fit(d, "time")
+            pool.append((m, d))
+        power = int(rng.integers(1, 3))
+        mk = lambda: Z.rotator_for(name)(n_modes=4, power=power, max_iter=5000, rtol=1e-10)  # noqa
+        R = mk()
+        hist = [int(rng.integers(0, 3)) for _ in range(int(rng.integers(2, 5)))]
+        try:
+            for j in hist:
+                R.fit(pool[j][0])
+                if rng.random() < 0.5:
+                    (R.transform(pool[j][1], pool[j][1] * 0.5 + 1.0) if cross else R.transform(pool[j][1]))
+            F = mk()
+            F.fit(pool[hist[-1]][0])
+        except RuntimeError as e:
+            if "converge" in str(e):
+                ctx.dist["rotation-did-not-converge"] += 1
+                continue
+            raise
+        d = pool[hist[-1]][1]
+        ctx.case(("rot-hist", name, power, tuple(hist), i), nontrivial=len(hist) >= 2, tag="%sRotator/refit-len%d" % (name, len(hist)), sample=dict(cls=name + "Rotator", history=hist, power=power))
+        a = answers(R, sp.kind, d, d * 0.5 + 1.0 if cross else None)
+        b = answers(F, sp.kind, d, d * 0.5 + 1.0 if cross else None)
+        if not equal(a, b):
+            ctx.violation("C14:%sRotator:refit:%s" % (name, first_diff(b, a)), "%sRotator(power=%d) fitted on base models %r in turn: the answer %r differs from a fresh rotator fitted on the last one" % (
+                name, power, hist, first_diff(b, a)), dict(kind="rotator-history", cls=name, history=hist, power=power))
+
+
 def run(ctx):
     C.setup_impl_env()
     rng = ctx.rng.child("c14").np
     run_histories(ctx, rng, ctx.n(45, 900), ctx.n(8, 40))
     run_histories_stacked(ctx, rng, ctx.n(18, 300), ctx.n(7, 20))
     run_rotator_leaves_model(ctx, rng, ctx.n(10, 100))
+    run_rotator_histories(ctx, rng, ctx.n(12, 200))
     from harness import mic
     mic.run(ctx, "C14", ctx.n(150, 1500))
     ctx.oblige("oracle:answers after any history equal a fresh model fitted on the last data; inputs and model untouched", "oracle", not ctx.violations)
